@@ -69,6 +69,26 @@ class Tab:
     def scalar(self, f):
         return self.h.get(self.p, f)
 
+    def rep_parts(self):
+        """Rep_T split into independently preserved pieces: 'main' (row counts, fixed columns) and, per ragged
+        column r, 'cap:r' (buffers allocated with their capacities) and 'wf:r' (offsets describe the data)"""
+        h = self.h
+        n, m = self.n, self.max_rows
+        main = [n >= 0, n <= m, m <= MAX_ROWS, m >= 1]
+        for c_ in FIXED[self.name]:
+            p = self.ptr(c_)
+            main += [z3.Not(h.isnull(p)), p.off == 0, h.len(p) >= m]
+        parts = {"main": z3.And(*main)}
+        for r in RAGGED[self.name]:
+            p = self.ptr(r)
+            po = self.ptr(r + "_offset")
+            ln = self.scalar(r + "_length")
+            mx = self.scalar("max_" + r + "_length")
+            parts["cap:" + r] = z3.And(z3.Not(h.isnull(po)), po.off == 0, h.len(po) >= m + 1,
+                                       z3.Not(h.isnull(p)), p.off == 0, h.len(p) >= mx, ln <= mx, ln >= 0)
+            parts["wf:" + r] = wf_offsets(h.arr(po), n, ln)
+        return parts
+
     def rep(self, metadata=True):
         """representation invariant of the table (Rep_T): what every public table operation maintains"""
         h = self.h
